@@ -16,7 +16,8 @@ from .. import canon_session, doccheck, editgen, engine_oracles, engine_run, gen
 from . import c06, c10
 
 PROFILE = {"vmerge": 0.0, "point_comment": 0.0, "para_mark_rev": 0.12, "comment": 0.25, "reply": 0.5, "ins": 0.2, "del": 0.2, "subst": 0.1,
-           "header": 0.0, "footer": 0.0, "odd_rev_id": 0.06, "shuffle_comments": 0.35, "comment_id_gap": 0.25}
+           "header": 0.0, "footer": 0.0, "odd_rev_id": 0.06, "shuffle_comments": 0.35, "comment_id_gap": 0.25,
+           "comment_in_ins": 0.6}
 PROFILES = {"default": PROFILE, "stories": dict(PROFILE, header=0.6, footer=0.5)}
 
 
@@ -33,9 +34,10 @@ def work(case):
     if edits is None:
         # (targets may lie inside another reviewer's pending insertion: validity must hold there too)
         edits = editgen.gen_mixed_batch(rng, doc, texts, rng.randint(1, 3), comment_p=0.5, states=("plain", "ins"))
-        if rng.random() < 0.4:
-            # a quote from the accepted view that ends with another reviewer's pending insertion
-            x = editgen.gen_cross_ins_edit(rng, doc, texts) + editgen.gen_cross_ins_any(rng, doc, texts)
+        if rng.random() < 0.65:
+            # a quote from the accepted view that ends with another reviewer's pending insertion / reaches into, out of or
+            # over one (an insertion may hold one end of a comment range: the markers must survive when its text is used up)
+            x = editgen.gen_cross_ins_edit(rng, doc, texts) + editgen.gen_cross_ins_any(rng, doc, texts) + editgen.gen_cross_ins_any(rng, doc, texts)
             edits += [e for e in x if not any(e["pi"] == y.get("pi") for y in edits)]
     actions = case.get("actions")
     if actions is None:
